@@ -366,7 +366,7 @@ def run(rep, ctx):
             return "Z"
         if t in ("0!=fabs(valX_)", "fabs(valX_)!=0", "valX_!=0", "0!=valX_"):
             return ("Z", True)
-        if re.match(r"^(violRel=)?fabs\(viol_/valX_\)>epsrel$", t) or t == "epsrel<fabs(viol_/valX_)":
+        if re.match(r"^(violRel=)?fabs\(viol_/valX_\)>epsrel$", t) or t in ("epsrel<fabs(viol_/valX_)", "epsrel<violRel=fabs(viol_/valX_)"):
             return "R"
         if re.match(r"^(violRel=)?fabs\(viol_/valX_\)<=epsrel$", t):
             return ("R", True)
